@@ -19,10 +19,12 @@ import GqlModel.Syntax.Ast
     untouched, a JSON value of the wrong type is an error.
 
   Domain of the decoder model (everything `enc…` produces is inside): keys are matched exactly
-  (the case-folding fallback of default struct decoding is not modelled), non-null values of the
-  link keys and of `Comment`/`Position` are skipped without being type-checked, and shapes the
-  tree type cannot hold (`null` list elements = nil pointers, a missing `Type`/`Value`) are
-  reported as the error `unmodelled`.
+  (the case-folding fallback of default struct decoding is not modelled), an object has no
+  duplicate keys (Go keeps the last one in the four map-based decoders and merges in the default
+  struct decoders), numbers are integer literals, and shapes the tree type cannot hold (`null`
+  list elements = nil pointers, a missing `Type`/`Value`, a `Kind` outside 0..9, an OBJECT under a
+  link key or under `Comment`/`Position`: `decLink`) are reported as the error `unmodelled`.  Check C19 compares the decoder with the real one on
+  hand-written and mutated JSON inside this domain (op `jsondec`).
 
   How a selection object is classified lives in ONE place: `currentDisc`.
 -/
@@ -58,6 +60,7 @@ def kUsed := str "Used"
 def kNamedType := str "NamedType"
 def kElem := str "Elem"
 def kNonNull := str "NonNull"
+def kPosition := str "Position"
 
 def mkObj (kvs : List (Bytes × Json)) : Json := .obj (JFields.ofList kvs)
 
@@ -183,6 +186,16 @@ def decList {α} (f : Json → Dec α) : Json → Dec (List α)
   | .arr xs => xs.toList.mapM (decElem f)
   | _ => .error errType
 
+/-- a pointer to a struct the tree type does not hold — the validation links (`Definition`,
+    `ObjectDefinition`, `ParentDefinition`, `VariableDefinition` of a value, `ExpectedType`), `Comment`,
+    and `Position` in the four hand-written decoders (default struct decoding skips it: `json:"-"`):
+    `null` → nil; an object would be decoded into the struct (not modelled); anything else is a type
+    error -/
+def decLink : Json → Dec Unit
+  | .null => .ok ()
+  | .obj _ => .error errUnmodelled
+  | _ => .error errType
+
 /-- Go `Type{NamedType, Elem, NonNull}` as the tree sees it (`Sx.Type` of the harness) -/
 def mkType (named : Bytes) (elem : Option GType) (nn : Bool) : GType :=
   match elem with
@@ -220,6 +233,9 @@ mutual
       if k = kRaw then do let raw' ← decString raw v; decValueKeys rest (raw', ch, kd)
       else if k = kChildren then do let ch' ← decChildren v; decValueKeys rest (raw, ch', kd)
       else if k = kKind then do let kd' ← decKind kd v; decValueKeys rest (raw, ch, kd')
+      else if k = kComment ∨ k = kDefinition ∨ k = kVariableDefinition ∨ k = kExpectedType then do
+        let _ ← decLink v
+        decValueKeys rest (raw, ch, kd)
       else decValueKeys rest (raw, ch, kd)
   /-- `ChildValueList` target -/
   def decChildren : Json → Dec Children
@@ -246,6 +262,7 @@ mutual
     | .cons k v rest, (nm, val) =>
       if k = kName then do let nm' ← decString nm v; decChildKeys rest (nm', val)
       else if k = kValue then do let val' ← decValue v; decChildKeys rest (nm, val')
+      else if k = kComment then do let _ ← decLink v; decChildKeys rest (nm, val)
       else decChildKeys rest (nm, val)
 end
 
@@ -254,6 +271,7 @@ def decArgumentKeys : JFields → Name × Option Value → Dec (Name × Option V
   | .cons k v rest, (nm, val) =>
     if k = kName then do let nm' ← decString nm v; decArgumentKeys rest (nm', val)
     else if k = kValue then do let val' ← decValue v; decArgumentKeys rest (nm, val')
+    else if k = kComment then do let _ ← decLink v; decArgumentKeys rest (nm, val)
     else decArgumentKeys rest (nm, val)
 
 def decArgument : Json → Dec Argument
@@ -272,6 +290,7 @@ def decDirectiveKeys : JFields → Name × List Argument → Dec (Name × List A
     if k = kName then do let nm' ← decString nm v; decDirectiveKeys rest (nm', args)
     else if k = kArguments then do let args' ← decArgs v; decDirectiveKeys rest (nm, args')
     else if k = kLocation then do let _ ← decString [] v; decDirectiveKeys rest (nm, args)
+    else if k = kParentDefinition ∨ k = kDefinition then do let _ ← decLink v; decDirectiveKeys rest (nm, args)
     else decDirectiveKeys rest (nm, args)
 
 def decDirective : Json → Dec Directive
@@ -293,11 +312,15 @@ inductive SelKind
     element every listed decoder rejects is dropped without an error. -/
 abbrev Disc := Json → List SelKind
 
-/-- /repo/ast/decode.go as it stands: `Field`, then `FragmentSpread`, then `InlineFragment`. -/
+/-- HISTORY — /repo/ast/decode.go before the commit "JSON-decoded selections keep their kind":
+    `Field`, then `FragmentSpread`, then `InlineFragment` (the first never fails on an object). -/
 def legacyDisc : Disc := fun _ => [.field, .spread, .inline]
 
-/-- The repair sketched in DESIGN appendix F (R19): choose the decoder by the keys present —
-    `Alias` ⇒ field, `TypeCondition` ⇒ inline fragment, otherwise fragment spread. -/
+/-- /repo/ast/decode.go as it stands (`UnmarshalSelectionSet`): the item is first decoded into
+    `keys map[string]json.RawMessage` (error ignored), then ONE decoder is chosen —
+    `keys["Alias"]` present, or `keys == nil` (the item is `null` or not a JSON object) ⇒ `Field`;
+    else `keys["TypeCondition"]` present ⇒ `InlineFragment`; else ⇒ `FragmentSpread`.  An item the
+    chosen decoder rejects is dropped (`pick` on a one-element list). -/
 def repairedDisc : Disc
   | .obj kvs =>
     if kvs.hasKey kAlias then [.field]
@@ -305,8 +328,8 @@ def repairedDisc : Disc
     else [.spread]
   | _ => [.field]
 
-/-- THE discriminator of the modelled code (flip to `repairedDisc` when decode.go is repaired). -/
-def currentDisc : Disc := legacyDisc
+/-- THE discriminator of the modelled code. -/
+def currentDisc : Disc := repairedDisc
 
 structure FieldAcc where
   alias : Name := []
@@ -324,12 +347,15 @@ structure InlineAcc where
 
 def InlineAcc.toSel (a : InlineAcc) : Selection := .inline a.typeCond a.dirs a.sel Pos.zero
 
-/-- default struct decoding of `FragmentSpread` (its `Definition` link is not modelled) -/
+/-- default struct decoding of `FragmentSpread` -/
 def decSpreadKeys : JFields → Name × List Directive → Dec (Name × List Directive)
   | .nil, acc => .ok acc
   | .cons k v rest, (nm, ds) =>
     if k = kName then do let nm' ← decString nm v; decSpreadKeys rest (nm', ds)
     else if k = kDirectives then do let ds' ← decDirs v; decSpreadKeys rest (nm, ds')
+    else if k = kObjectDefinition ∨ k = kDefinition ∨ k = kComment then do
+      let _ ← decLink v
+      decSpreadKeys rest (nm, ds)
     else decSpreadKeys rest (nm, ds)
 
 def spreadOf (r : Name × List Directive) : Selection := .spread r.1 r.2 Pos.zero
@@ -389,6 +415,9 @@ mutual
       else if k = kSelectionSet then do
         let x ← decSelectionSet disc v
         decFieldKeys disc rest { acc with sel := x }
+      else if k = kPosition ∨ k = kDefinition ∨ k = kObjectDefinition then do
+        let _ ← decLink v
+        decFieldKeys disc rest acc
       else decFieldKeys disc rest acc
   /-- `(*InlineFragment).UnmarshalJSON` -/
   def decInlineKeys (disc : Disc) : JFields → InlineAcc → Dec InlineAcc
@@ -401,6 +430,9 @@ mutual
       else if k = kSelectionSet then do
         let x ← decSelectionSet disc v
         decInlineKeys disc rest { acc with sel := x }
+      else if k = kObjectDefinition ∨ k = kPosition then do
+        let _ ← decLink v
+        decInlineKeys disc rest acc
       else decInlineKeys disc rest acc
 end
 
@@ -420,6 +452,7 @@ def decVarDefKeys : JFields → VarDefAcc → Dec VarDefAcc
     else if k = kDefaultValue then do let x ← decValue v; decVarDefKeys rest { acc with default := x }
     else if k = kDirectives then do let x ← decDirs v; decVarDefKeys rest { acc with dirs := x }
     else if k = kUsed then do let _ ← decBool false v; decVarDefKeys rest acc
+    else if k = kComment ∨ k = kDefinition then do let _ ← decLink v; decVarDefKeys rest acc
     else decVarDefKeys rest acc
 
 def decVarDef : Json → Dec VarDef
@@ -445,6 +478,7 @@ def decOperationKeys (disc : Disc) : JFields → OperationDef → Dec OperationD
     else if k = kSelectionSet then do
       let x ← decSelectionSet disc v
       decOperationKeys disc rest { acc with sel := x }
+    else if k = kPosition then do let _ ← decLink v; decOperationKeys disc rest acc
     else decOperationKeys disc rest acc
 
 def emptyOperation : OperationDef := { op := [], name := [], vars := [], dirs := [], sel := .nil, pos := Pos.zero }
@@ -468,6 +502,7 @@ def decFragmentKeys (disc : Disc) : JFields → FragmentDef → Dec FragmentDef
     else if k = kSelectionSet then do
       let x ← decSelectionSet disc v
       decFragmentKeys disc rest { acc with sel := x }
+    else if k = kDefinition ∨ k = kPosition then do let _ ← decLink v; decFragmentKeys disc rest acc
     else decFragmentKeys disc rest acc
 
 def emptyFragment : FragmentDef :=
@@ -486,6 +521,7 @@ def decDocKeys (disc : Disc) : JFields → QueryDoc → Dec QueryDoc
     else if k = kFragments then do
       let x ← decList (decFragment disc) v
       decDocKeys disc rest { acc with frags := x }
+    else if k = kComment then do let _ ← decLink v; decDocKeys disc rest acc
     else decDocKeys disc rest acc
 
 /-- `json.Unmarshal(data, &doc)` with `doc` a fresh `ast.QueryDocument` -/
